@@ -22,7 +22,7 @@ RULE = ("process tables (pid, ppid, start ticks) written into a fake /proc: rand
 TRUSTED = ["correspondence harness props/C05.py + pv/fakeproc (fake /proc tree, os.listdir order patch, builtins.open wrapper that removes "
            "a directory before the k-th open of its stat file, ppid_map wrapper, itimer guard turning a non-terminating call into Timeout)",
            "float layer: create_time() = ticks/CLK + boot time is compared on ticks in the model (strictly monotone for a constant boot time)",
-           "round 2: Process.children() is translated from the ast of the tree under check (props/_c05_gen.py, fail-closed) into the statement "
+           "round 2: Process.children() and Process.parent() are translated from the ast of the tree under check (props/_c05_gen.py, fail-closed) into the statement "
            "language of coq/C05/PyGen.v and proved equal to the model's children_direct / children_rec for every table with non-negative PIDs "
            "(coq/C05/ProofsGen.v); trusted there: the translator (ast shape -> constructor, ~200 lines), the interpreter's reading of the Python "
            "statements, and the primitives it is instantiated with (Process(pid), _start_times, _raise_if_pid_reused, _ppid_map stay hand-written)"]
@@ -1063,7 +1063,7 @@ MANIFEST = {
             "from the final table, objects compared by (pid, start ticks)) and with a process removed before each k-th open of its stat file; the harness oracle for descendants is proved equal to the inductive set.",
     "note": "Trusted: Coq kernel + vm_compute; hand-written model coq/C05/Model.v (tied by the correspondence run; the control flow of children() -- guards, comparison operators, order of "
             "checks, exception handlers, both loops, seen set, stack -- additionally by translation: coq/Gen/C05_Tables.v c05_children is generated from "
-            "the ast on every run and C05_gen_children_direct / C05_gen_children_rec prove the interpreter on it equal to the model; parent(), parents(), "
+            "the ast on every run and C05_gen_children_direct / C05_gen_children_rec prove the interpreter on it equal to the model; likewise parent() (c05_parent, C05_gen_parent, no hypothesis); parents(), "
             "_start_times, Process(pid), ppid_map stay tied by the correspondence run only); translator props/_c05_gen.py + interpreter coq/C05/PyGen.v; harness (fake /proc, "
             "os.listdir order patch, ppid_map wrapper, itimer guard); CPython floats/dicts/sets. Proof covers the model, sampling covers model-vs-code.",
 }
